@@ -84,6 +84,7 @@ def run(prop, tier, seed, work, ev):
     rejects += run_and_judge("filter predicates that are chains themselves (projection then pipe / index / field; inner predicates true for null), also under '!' and followed by one more link",
                              c, work, ev, drv, docs=c + ".docs", nsamples=1)
     rejects += pool_families(["confuse", "bool", "inflate", "alias", "hash", "nest", "errpair", "deep", "keyword", "litop"], work, ev, drv)
+    rejects += varapi_phase(work, ev, drv)
     params = work.path("rand.in")
     e = dict(os.environ, GEN_MAXLEN=str(t["maxlen"]))
     subprocess.check_call([drv, "gen", "eval", str(seed), str(t["rand"]), params], env=e)
@@ -96,9 +97,26 @@ def run(prop, tier, seed, work, ev):
     return rejects
 
 
+def varapi_phase(work, ev, drv, model=True):
+    """the public accessor methods of Variable (spec/VarApi.tla): the contract stated through Eval (MC_VarApi), every method called on
+    every ordered pair of a universe and judged by TV_VarApi"""
+    if model:
+        tlc_ok("mc/MC_VarApi.tla", "MC_VarApi.cfg", work, ev=ev, timeout=3000,
+               label="accessor methods of Variable (get_field / get_index / get_negative_index / is_truthy / compare / Ord) = the evaluator's meaning of the corresponding expression form; the internal order's laws")
+    c = work.path("varapi.cases")
+    r = tlc("gen/Gen_VarApi.tla", "Gen.cfg", work, env={"OUT": c}, workers=1, timeout=1800)
+    if r.rc != 0 or not os.path.exists(c):
+        raise ToolError("Gen_VarApi failed:\n" + r.tail())
+    return run_and_judge("the public accessor methods of Variable on every ordered pair of 93 values (all types, neighbouring doubles, magnitudes near f64::MAX, "
+                         "strings ordered differently by code point and UTF-16 unit): get_type, is_truthy, is_X / as_X, get_field, get_index, "
+                         "get_negative_index, compare, == / !=, Ord::cmp", c, work, ev, drv, nsamples=1, tv="tv/TV_VarApi.tla", engine="varapi")
+
+
 def replay(prop, path, work, tv="tv/TV_Eval.tla", engine="search"):
     drv = build_driver()
     rec = json.load(open(path))["record"]
+    if rec.get("e") == "varapi":
+        tv, engine = "tv/TV_VarApi.tla", "varapi"
     rec.pop("d", None)
     cases = work.path("c")
     with open(cases, "w") as f:
@@ -107,7 +125,8 @@ def replay(prop, path, work, tv="tv/TV_Eval.tla", engine="search"):
     run_driver(drv, ["run", engine], cases, obs)
     stats, rej = judge(tv, None, obs, work, chunks=1)
     o = json.loads(open(obs).read())
-    print("expression:", repr(common.uncps(o["text"])))
+    if "text" in o:
+        print("expression:", repr(common.uncps(o["text"])))
     print("observation:", json.dumps(o.get("out"))[:600])
     if rej:
         print("spec expected:", json.dumps(rej[0]["exp"])[:900])
